@@ -57,11 +57,17 @@ package stacktrace
 //@   requires sf != nil && sf.b != nil
 //@   modifies sf.nonEmpty, sf.b.bs, comp(E:uint8)
 //@   ensures sf.nonEmpty && sf.b == old(sf.b)
+//@   ensures elems_frame(type(uint8), old(sf.b.bs))
+//@   ensures arr(sf.b.bs) == old(arr(sf.b.bs)) || fresh(sf.b.bs)
 
 //@ func (*internal/stacktrace.Formatter).FormatStack
 //@   props C15
 //@   flags nopanic
 //@   requires sf != nil && sf.b != nil && stack != nil && stack.frames != nil
-//@   modifies Formatter.nonEmpty, buffer.Buffer.bs, comp(E:uint8), $user
+//@   modifies Formatter.nonEmpty, sf.b.bs, comp(E:uint8), $user
 //@   ensures sf.b == old(sf.b)
+//@   ensures elems_frame(type(uint8), old(sf.b.bs))
+//@   ensures arr(sf.b.bs) == old(arr(sf.b.bs)) || fresh(sf.b.bs)
 //@   loop 1 invariant sf.b == old(sf.b) && sf.b != nil && stack.frames == old(stack.frames)
+//@   loop 1 invariant elems_frame(type(uint8), old(sf.b.bs)) && (arr(sf.b.bs) == old(arr(sf.b.bs)) || fresh(sf.b.bs))
+//@   loop 1 invariant only_changed(buffer.Buffer.bs, sf.b)
